@@ -12,18 +12,27 @@ FUNCTIONS = [Y + "Scope.value_for", Y + "Scope.__getitem__", Y + "Scope.add_symb
              Y + "Resolver.append_internal_scope", Y + "Resolver.use_next_scope", Y + "Resolver.restore_scope", "a816.parse.nodes.ScopeNode.pc_after",
              "a816.parse.nodes.ScopeNode.emit", "a816.parse.nodes.PopScopeNode.pc_after", "a816.parse.nodes.PopScopeNode.emit", G + "generate_scope", G + "generate_compound",
              "a816.program.Program.resolver_reset"]
-MIN_OBLIGATIONS = 80
+MIN_OBLIGATIONS = 200
 EXPLANATION = ("Scope.value_for is proved by induction: a scope with arbitrary own tables answers from its own tables (code block first) and otherwise "
                "exactly what an ABSTRACT enclosing chain answers (inductive step, any depth).  Defining a label/symbol is proved to change only that "
                "scope's tables (isolation as a frame condition).  Export on leaving a named scope: parent gains exactly name.k = v.  Every scope-opening "
                "generator (block, named scope; macro application in C09; loop iteration in C10) is proved balanced with the enclosing scope as parent; "
                "ScopeNode / PopScopeNode replay creation order in every pass; one composite contract runs the real generators and the real label "
-               "pass on a nested shape.  Rename invariance and arbitrary nestings are the bounded part.")
+               "pass on a nested shape.  FOR EVERY AST (vf/contracts/c_expansion.py): each of the 23 generators, on a node of its kind whose sub-trees are lists of unknown "
+               "length, with the resolver in an arbitrary consistent state, leaves the scope that was current current again, keeps the next-scope cursor consistent with the "
+               "scope list and only appends scopes; _code_gen is proved against the same contract with an arbitrary statement of every kind as its loop element, the "
+               "generators (and the recursive _code_gen calls) being replaced by that contract -- so scope balance holds for arbitrary nestings by induction on the AST, "
+               "machine-checked per generator.  Rename invariance and whole-program resolution on arbitrary nestings are the bounded part.")
 TRUSTED = ["vf/specs/progmodel.py AbstractScope (summary of an enclosing chain by its answer for the probed name)"]
 ASSUMPTIONS = ["composition (paper): balanced generators + pre-order creation + replay by position => each pass visits the scope a statement was written in; "
                "with lexical value_for this gives lexical resolution for arbitrary nestings; cross-checked by the composite contract and bounded nestings",
                "bounded: generated nestings (blocks, named scopes, macro applications, loops) with backward/forward/shadowing/sibling-reuse references vs the "
                "reference model, consistent renaming of scope-local names, unrelated definitions added in other scopes"]
+
+
+from vf.props import expansion as _exp  # noqa: E402
+FUNCTIONS = FUNCTIONS + [f for f in _exp.FUNCTIONS if f not in FUNCTIONS]
+ASSUMPTIONS = ASSUMPTIONS + ["expansion contracts: " + a for a in _exp.ASSUMED]
 
 
 def shape_value_for(in_symbols, in_blocks, parent_kind):
@@ -105,6 +114,8 @@ def cases(E):
         cs.append(Case("vf.contracts.c_labels.restore_scope_export_contract", f"{kind},exports={ex}", c02.shape_export(kind, ex), target=[Y + "Resolver.restore_scope"]))
     for kind in ("compound", "scope"):
         cs.append(Case("vf.contracts.c_codegen.balanced_scope_contract", kind, shape_balanced(kind), target=[G + "generate_compound", G + "generate_scope"]))
+    from vf.props import expansion
+    cs += expansion.cases(E)
     cs.append(Case(H + "scope_replay_wrapper_contract", "{ a: x: .scope s { b: x: { c: x: } } d: } e:", shape_replay, target=[G + "_code_gen", "a816.program.Program.resolve_labels"]))
     return cs
 
@@ -130,13 +141,17 @@ def bounded(tier, seed):
     return native_call("b_C08.py", {"tier": tier, "seed": seed}, timeout=3000)
 
 
+QUICK_MUTANTS = 10
+
+
 def mutants():
     from vf.pyvc.mutate import textual
-    return [
+    from vf.props import expansion
+    return expansion.mutants() + [
         Mutant("value_for:parent-first", Y + "Scope.value_for", textual("if symbol in self.symbols or symbol in self.code_symbols:", "if False:"), only_harness="value_for"),
         Mutant("restore_scope:export-to-root", Y + "Resolver.restore_scope", textual("scope.parent.symbols |=", "self.scopes[0].symbols |="), only_harness="restore_scope"),
         Mutant("use_next_scope:position-not-advanced", Y + "Resolver.use_next_scope", textual("self.last_used_scope += 1", "self.last_used_scope += 0"), only_harness="scope_nodes"),
         Mutant("generate_compound:no-restore", G + "generate_compound", textual("resolver.restore_scope()", "pass"), only_harness="balanced_scope"),
         Mutant("PopScopeNode.emit:exports", "a816.parse.nodes.PopScopeNode.pc_after", textual("restore_scope(exports=True)", "restore_scope()"), only_harness="scope_replay"),
-        Mutant("add_symbol:also-in-parent", Y + "Scope.add_symbol", textual("            self.symbols[symbol] = value", "            self.symbols[symbol] = value\\n            if self.parent:\\n                self.parent.symbols[symbol] = value"), only_harness="add_symbol_frame"),
+        Mutant("add_symbol:also-in-parent", Y + "Scope.add_symbol", textual("        self.symbols[symbol] = value", "        self.symbols[symbol] = value\n        if self.parent:\n            self.parent.symbols[symbol] = value"), only_harness="add_symbol_frame"),
     ]
